@@ -81,6 +81,18 @@ func Bmp2Png(BmpBytes []byte) []byte {
 
 	f = bufio.NewWriter(&Bytes)
 
+	// the decoder allocates what the header announces: a bitmap cannot have more pixels than its
+	// data has bits (the agent, or whoever speaks for it, wrote that header)
+	Config, err := bmp.DecodeConfig(bytes.NewReader(BmpBytes))
+	if err != nil {
+		logger.Error("Failed to decode bmp: " + err.Error())
+		return nil
+	}
+	if Config.Width <= 0 || Config.Height <= 0 || int64(Config.Width)*int64(Config.Height) > int64(len(BmpBytes))*8 {
+		logger.Error(fmt.Sprintf("Failed to decode bmp: %v x %v pixels announced in %v bytes", Config.Width, Config.Height, len(BmpBytes)))
+		return nil
+	}
+
 	Image, err := bmp.Decode(bytes.NewReader(BmpBytes))
 	if err != nil {
 		logger.Error("Failed to decode bmp: " + err.Error())
